@@ -158,7 +158,8 @@ class Rig:
             # the serial transport's write-gap task wakes every 50 ms of (virtual) time, so long gaps
             # cost wall time: most histories cap them at 4 s (beyond every sub-second heuristic),
             # every fourth one lets them pass in full so that messages really age and expire
-            await asyncio.sleep(gap if self.full_gaps else min(gap, 4.0))
+            # (a gap of many hours is the history's 'old head': always honoured, it is what ages the head)
+            await asyncio.sleep(gap if self.full_gaps or gap > 20 * 3600 else min(gap, 4.0))
 
     def next_dtm(self) -> str:
         import datetime as _dt
@@ -517,7 +518,7 @@ def episode(ctx, local: int, gtrial: int) -> None:
     discovery = stack == "port" and rng.random() < 0.5
 
     async def go(loop):
-        with clocks_patched(entity_dt=(stack == "port"), transport_dt=(stack == "port")):
+        with clocks_patched(entity_dt=(stack == "port"), transport_dt=(stack == "port")), harness.on_demand_write_spacer():
             await run_history(loop, ctx, h, stack, eavesdrop, gtrial, discovery)
 
     try:
